@@ -17,6 +17,18 @@ package basichost
 // application does FIRST on the stream NewStream returned (c07Scripts: sequences of distinct Write / zero-length
 // Write / Read / CloseWrite / CloseRead / Close), on the optimistic and on the negotiated path alike, and checked
 // by oracleFirstUse().
+//
+// Configuration dimensions (added after two seeded changes in BasicHost.newStreamHandler - the handler still dispatched
+// after the protocol scope refused SetProtocol; an inbound negotiation recorded as "the remote serves P" - that a
+// fixture with an unlimited listener and handler-less dialers could not see): every class is rebuilt on fixtures with
+// another configuration (c07Cfg, see variant()):
+//   - the listener's REAL resource manager limits the concurrent inbound streams per protocol, in the protocol scope or
+//     in the protocol-peer scope, N = 0, 1, 2; N streams are held open and every request list is opened against that
+//     (holdProbes): the handler that runs, runs on a stream attached to the scope of the protocol it reports; a stream the
+//     resource manager refused runs no handler; the scopes count exactly the open streams;
+//   - the dialers have handlers of their own and BOTH sides open streams to each other over the same connection, the
+//     second open made from what both hosts know after the first (bidirProbes): all oracles with the host opened to
+//     as "the remote", plus c07NeverHandled.
 
 import (
 	"bytes"
@@ -29,6 +41,7 @@ import (
 	"runtime/debug"
 	"sort"
 	"strconv"
+	"strings"
 	"sync"
 	"sync/atomic"
 	"syscall"
@@ -185,14 +198,18 @@ type c07Checker struct {
 	thorough  bool
 	blank     bool // the search over BlankHosts
 
-	plainSamples, scriptSamples atomic.Int64
-	opens                       atomic.Int64
-	tNew                        atomic.Int64 // nanoseconds spent building fixtures / applying operations / probing states (summed over workers)
-	tApply                      atomic.Int64
-	tVisit                      atomic.Int64
-	nNew                        atomic.Int64
-	groups                      atomic.Int64
-	pstates                     atomic.Int64
+	plainSamples, scriptSamples, limitSamples, bidirSamples atomic.Int64
+	nRefused, nVariants                                     atomic.Int64
+	variants                                                []c07Cfg // fixtures with another configuration on which every (mux, knowledge) class is probed too
+	limScripts                                              []string // first-use scripts of the opens made against a limited listener
+	tagged                                                  map[string]int64
+	opens                                                   atomic.Int64
+	tNew                                                    atomic.Int64 // nanoseconds spent building fixtures / applying operations / probing states (summed over workers)
+	tApply                                                  atomic.Int64
+	tVisit                                                  atomic.Int64
+	nNew                                                    atomic.Int64
+	groups                                                  atomic.Int64
+	pstates                                                 atomic.Int64
 
 	mu      sync.Mutex
 	classes map[string]struct{}
@@ -203,6 +220,7 @@ type c07Checker struct {
 	// the dialer's knowledge contains nothing stale
 	unexpected      int64
 	unexpectedFirst string
+	holdIncomplete  int64 // streams that were to be held open in the background could not all be opened
 }
 
 func atts2reqs(atts []*c07Attempt) []c07Req {
@@ -302,27 +320,52 @@ func c07ProtoStat(rm network.ResourceManager, p protocol.ID) (st network.ScopeSt
 	return
 }
 
+// c07ProbeOpt: how one group of opens is run.
+type c07ProbeOpt struct {
+	restore bool   // start from the knowledge the state was entered with (false: the effect on the knowledge IS the point)
+	lknow   byte   // with restore: what L knows about the dialers' protocols (0 = c07LKnowAccurate)
+	why     string // for the description of a violation
+	tag     string // the dimension the group belongs to beyond the plain state ("" = plain); part of the outcome class
+	prefix  []byte
+	hold    bool // a single open that succeeded is not closed but kept open in the background (in.held)
+}
+
 // probe runs one group of opens in the current state and checks it. restore: start from the knowledge the
 // state was entered with (false for the Learn operation, whose effect on the knowledge IS the operation).
 func (ck *c07Checker) probe(in *c07Inst, reqs []c07Req, restore bool, why string) error {
-	return ck.probeWith(in, reqs, restore, why, nil)
+	_, err := ck.probeOpt(in, reqs, c07ProbeOpt{restore: restore, why: why})
+	return err
 }
 
 func (ck *c07Checker) probeWith(in *c07Inst, reqs []c07Req, restore bool, why string, prefix []byte) error {
+	_, err := ck.probeOpt(in, reqs, c07ProbeOpt{restore: restore, why: why, prefix: prefix})
+	return err
+}
+
+func (ck *c07Checker) probeOpt(in *c07Inst, reqs []c07Req, o c07ProbeOpt) ([]*c07Attempt, error) {
 	if in.broken != "" {
-		return nil
+		return nil, nil
 	}
-	if restore {
+	if o.restore {
+		lk := o.lknow
+		if lk == 0 {
+			lk = c07LKnowAccurate
+		}
 		for k := range in.D {
 			in.restore(k)
+			in.restoreL(k, lk)
 		}
 	}
 	in.mu.Lock()
 	mark := len(in.log)
 	in.mu.Unlock()
+	var markR [3]int
+	for n := range markR {
+		markR[n] = in.node(n).rm.nRefusals()
+	}
 	atts := make([]*c07Attempt, len(reqs))
 	for i, q := range reqs {
-		a := &c07Attempt{c07Req: q, prefix: prefix}
+		a := &c07Attempt{c07Req: q, prefix: o.prefix}
 		in.nonce++
 		copy(a.nonce[:], fmt.Sprintf("\x7fnonce%010d", in.nonce)) // 16 bytes; 0x7f first: never a valid multistream frame by accident
 		atts[i] = a
@@ -348,6 +391,17 @@ func (ck *c07Checker) probeWith(in *c07Inst, reqs []c07Req, restore bool, why st
 	in.mu.Lock()
 	window := append([]*c07Inv(nil), in.log[mark:]...)
 	in.mu.Unlock()
+	// which opens did the target's resource manager refuse to attach to the protocol's scope? (an open made alone owns
+	// every refusal of an inbound stream from its opener; in a concurrent group the protocol tells them apart)
+	for _, a := range atts {
+		for _, rf := range in.node(a.target()).rm.refusalsSince(markR[a.target()]) {
+			if rf.dir == network.DirInbound && rf.peer == in.node(a.opener()).id && (len(atts) == 1 || rf.proto == a.proto) {
+				a.refusedBy = fmt.Sprintf("SetProtocol(%s) refused by %s's resource manager: %v", rf.proto, c07NodeName(a.target()), rf.err)
+				ck.nRefused.Add(1)
+				break
+			}
+		}
+	}
 
 	var verr error
 	if len(atts) > 1 || atts[0].script == "" {
@@ -362,6 +416,10 @@ func (ck *c07Checker) probeWith(in *c07Inst, reqs []c07Req, restore bool, why st
 	// both ends finish: the dialer closes (unless its script did), the handler sees EOF and closes
 	for _, a := range atts {
 		if a.ok() && !a.closed {
+			if o.hold && len(atts) == 1 && !a.closedAny && verr == nil {
+				in.held = append(in.held, a)
+				continue
+			}
 			if err := a.s.Close(); err != nil {
 				a.s.Reset()
 			}
@@ -373,13 +431,40 @@ func (ck *c07Checker) probeWith(in *c07Inst, reqs []c07Req, restore bool, why st
 	}
 	if verr != nil {
 		v := verr.(*seqmc.Vio)
-		v.Desc = fmt.Sprintf("%s | opens (%s): %v | state: %s", v.Desc, why, reqs, in.pkey)
-		return v
+		v.Desc = fmt.Sprintf("%s | opens (%s): %v | state: %s", v.Desc, o.why, reqs, in.pkey)
+		if !in.cfg.zero() {
+			v.Desc += " | fixture: " + in.cfg.String()
+		}
+		if len(in.held) > 0 {
+			v.Desc += fmt.Sprintf(" | held open meanwhile: %v", atts2reqs(in.held))
+		}
+		return atts, v
 	}
-	if why != "learn" {
+	if o.why != "learn" {
 		// (opens made by Learn operations are checked like any other but not counted as cases: they are
 		// repeated by every replay of a history, in every shard)
-		ck.classify(in, atts, window)
+		ck.classify(in, atts, window, o.tag)
+	}
+	return atts, nil
+}
+
+// release closes the opens held in the background and checks that nothing stays charged.
+func (ck *c07Checker) release(in *c07Inst) error {
+	held := in.held
+	in.held = nil
+	for _, a := range held {
+		if err := a.s.Close(); err != nil {
+			a.s.Reset()
+		}
+	}
+	synctest.Wait()
+	if in.broken != "" {
+		return nil
+	}
+	if verr := ck.scopesAfterClose(in, nil); verr != nil {
+		v := verr.(*seqmc.Vio)
+		v.Desc = fmt.Sprintf("%s | after closing the opens held in the background: %v | state: %s | fixture: %s", v.Desc, atts2reqs(held), in.pkey, in.cfg)
+		return v
 	}
 	return nil
 }
@@ -393,15 +478,18 @@ func c07Has(list []protocol.ID, p protocol.ID) bool {
 	return false
 }
 
-// common: does the listener handle (by an exact handler or a match function) any requested protocol?
-func (in *c07Inst) common(list []protocol.ID) bool {
+// commonAt: does host node handle (by an exact handler or a match function) any requested protocol?
+func (in *c07Inst) commonAt(node int, list []protocol.ID) bool {
 	for _, p := range list {
-		if len(in.acceptors(p)) > 0 {
+		if len(in.acceptorsAt(node, p)) > 0 {
 			return true
 		}
 	}
 	return false
 }
+
+// common: does the listener L?
+func (in *c07Inst) common(list []protocol.ID) bool { return in.commonAt(0, list) }
 
 func c07DescAttempt(a *c07Attempt) string {
 	if a.s == nil {
@@ -411,16 +499,56 @@ func c07DescAttempt(a *c07Attempt) string {
 	if a.optimistic {
 		path = "optimistic"
 	}
-	if !a.ok() {
-		return fmt.Sprintf("%v: NewStream ok (%s, Protocol()=%q), first %s failed: %v", a.c07Req, path, a.proto, a.stage, a.err)
+	rf := ""
+	if a.refusedBy != "" {
+		rf = " [" + a.refusedBy + "]"
 	}
-	return fmt.Sprintf("%v: open ok (%s, Protocol()=%q)", a.c07Req, path, a.proto)
+	if !a.ok() {
+		return fmt.Sprintf("%v: NewStream ok (%s, Protocol()=%q), first %s failed: %v%s", a.c07Req, path, a.proto, a.stage, a.err, rf)
+	}
+	return fmt.Sprintf("%v: open ok (%s, Protocol()=%q)%s", a.c07Req, path, a.proto, rf)
 }
 
 func c07DescInv(in *c07Inst, v *c07Inv) string {
 	in.mu.Lock()
 	defer in.mu.Unlock()
-	return fmt.Sprintf("handler %v ran on a stream with Protocol()=%q from %s (gotNonce=%v)", v.reg, v.proto, v.remote.ShortString(), v.gotNonce)
+	sc := "scope not inspected"
+	if v.scopeSeen {
+		sc = "attached to no protocol scope"
+		if v.isCharged {
+			sc = fmt.Sprintf("attached to the protocol scope of %q", v.charged)
+		}
+		if v.refused {
+			sc += ", REFUSED by the resource manager"
+		}
+	}
+	return fmt.Sprintf("handler %v ran on a stream with Protocol()=%q (%s) from %s (gotNonce=%v)", v.reg, v.proto, sc, v.remote.ShortString(), v.gotNonce)
+}
+
+// checkInv: what the statement says about the stream a handler runs on, whatever the open: "the remote runs exactly the
+// handler ... on a stream reporting the same protocol ID ... and the stream is charged to the negotiated protocol's
+// resource scope on both sides". A stream the resource manager refused to attach is not charged to it: no handler.
+func c07CheckInv(in *c07Inst, a *c07Attempt, v *c07Inv) error {
+	if v.refused {
+		return seqmc.Violation("handler-ran-on-refused-stream", "%s; %s", c07DescAttempt(a), c07DescInv(in, v))
+	}
+	if v.scopeSeen && (!v.isCharged || v.charged != v.proto) {
+		return seqmc.Violation("handler-stream-not-charged-to-its-protocol-scope", "%s; %s", c07DescAttempt(a), c07DescInv(in, v))
+	}
+	return nil
+}
+
+// c07NeverHandled: "the stream it gets is bound to one of the requested protocols, the remote runs exactly the handler
+// registered for (or matching) that protocol". An optimistic open may be bound to a protocol the remote no longer
+// handles (the quantifier's "stale after handler removal"; the open then fails on first use, see level_note). What
+// no knowledge state of the quantifier explains is a stream bound to a protocol the remote has NEVER handled while
+// it does handle another requested one.
+func c07NeverHandled(in *c07Inst, a *c07Attempt) error {
+	if a.s != nil && c07Has(a.list, a.proto) && in.commonAt(a.target(), a.list) && !in.everAccepted(a.target(), a.proto) {
+		return seqmc.Violation("bound-to-protocol-the-remote-never-handled", "%s: %s has never had a handler registered for or matching %q, but handles another requested protocol; %s believed it supports %v",
+			c07DescAttempt(a), c07NodeName(a.target()), a.proto, c07NodeName(a.opener()), in.knowledge(a.opener(), a.target()))
+	}
+	return nil
 }
 
 // oracle checks one group of opens against the statement. window = invocations of the harness's handlers
@@ -442,13 +570,21 @@ func (ck *c07Checker) oracle(in *c07Inst, atts []*c07Attempt, window []*c07Inv) 
 				mine = append(mine, v)
 			}
 		}
-		common := in.common(a.list)
+		common := in.commonAt(a.target(), a.list)
 		if common {
 			withCommon++
 		}
 		// "the stream it gets is bound to one of the requested protocols"
 		if a.s != nil && !c07Has(a.list, a.proto) {
 			return seqmc.Violation("stream-bound-to-unrequested-protocol", "%s", c07DescAttempt(a))
+		}
+		if err := c07NeverHandled(in, a); err != nil {
+			return err
+		}
+		for _, v := range mine {
+			if err := c07CheckInv(in, a, v); err != nil {
+				return err
+			}
 		}
 		// "If the two sides have no protocol in common the open fails - at the latest on first use - and no
 		// application handler runs"
@@ -483,7 +619,7 @@ func (ck *c07Checker) oracle(in *c07Inst, atts []*c07Attempt, window []*c07Inv) 
 		if !bytes.Equal(a.reply, append(c07Tag(v.reg), a.nonce[:]...)) {
 			return seqmc.Violation("echo-mismatch", "%s; %s; the dialer read %q, expected that handler's tag followed by the nonce %q", c07DescAttempt(a), c07DescInv(in, v), a.reply, a.nonce[:])
 		}
-		if v.remote != in.D[a.dk].id || a.remote != in.L.id || v.limited != (a.dk == c07Limited) || a.limited != (a.dk == c07Limited) {
+		if v.reg.node != a.target() || v.remote != in.node(a.opener()).id || a.remote != in.node(a.target()).id || v.limited != (a.dk == c07Limited) || a.limited != (a.dk == c07Limited) {
 			return seqmc.Violation("wrong-endpoints", "%s; %s; dialer's stream: remote=%s limited=%v; handler's stream: limited=%v", c07DescAttempt(a), c07DescInv(in, v), a.remote.ShortString(), a.limited, v.limited)
 		}
 	}
@@ -507,10 +643,23 @@ func (ck *c07Checker) oracleFirstUse(in *c07Inst, a *c07Attempt, window []*c07In
 	if a.s != nil && !c07Has(a.list, a.proto) {
 		return seqmc.Violation("stream-bound-to-unrequested-protocol", "%s", c07DescAttempt(a))
 	}
+	if err := c07NeverHandled(in, a); err != nil {
+		return err
+	}
+	// "... on a stream reporting the same protocol ID ... and the stream is charged to the negotiated protocol's resource
+	// scope": holds for the stream of every handler that runs; a stream the resource manager refused runs none
+	for _, v := range window {
+		if err := c07CheckInv(in, a, v); err != nil {
+			return err
+		}
+	}
+	if a.refusedBy != "" && len(window) > 0 {
+		return seqmc.Violation("handler-ran-on-refused-stream", "%s; %s", c07DescAttempt(a), c07DescInv(in, window[0]))
+	}
 	// "If the two sides have no protocol in common the open fails - at the latest on first use - and no application
 	// handler runs". The dialer can observe the failure only if it reads; a script that closed the read side gets
 	// no verdict on "fails".
-	if !in.common(a.list) {
+	if !in.commonAt(a.target(), a.list) {
 		if len(window) > 0 {
 			return seqmc.Violation("handler-ran-without-common-protocol", "%s; %s", c07DescAttempt(a), c07DescInv(in, window[0]))
 		}
@@ -533,8 +682,10 @@ func (ck *c07Checker) oracleFirstUse(in *c07Inst, a *c07Attempt, window []*c07In
 		// for (or matching) that protocol": NewStream returned a stream bound to P, the listener has a live handler that
 		// is registered for / matches P, and the application used the stream ("at the latest on first use" - an
 		// optimistically opened stream sends nothing before that).
-		if a.used && len(in.acceptors(a.proto)) > 0 {
-			return seqmc.Violation("handler-not-reached", "%s; the listener has a handler for %q (%v) but no handler ran", c07DescAttempt(a), a.proto, in.acceptors(a.proto))
+		// (Not demanded of a stream the remote's resource manager refused to attach to the protocol's scope: it cannot be
+		// "charged to the negotiated protocol's resource scope", and the statement lets no handler run on one that is not.)
+		if a.used && a.refusedBy == "" && len(in.acceptorsAt(a.target(), a.proto)) > 0 {
+			return seqmc.Violation("handler-not-reached", "%s; %s has a handler for %q (%v) but no handler ran", c07DescAttempt(a), c07NodeName(a.target()), a.proto, in.acceptorsAt(a.target(), a.proto))
 		}
 		return nil
 	}
@@ -562,55 +713,72 @@ func (ck *c07Checker) oracleFirstUse(in *c07Inst, a *c07Attempt, window []*c07In
 	if !bytes.HasPrefix(exp, a.reply) {
 		return seqmc.Violation("echo-mismatch", "%s; %s; the dialer read %q, expected that handler's tag followed by the nonce %q", c07DescAttempt(a), c07DescInv(in, v), a.reply, a.nonce[:])
 	}
-	if v.remote != in.D[a.dk].id || a.remote != in.L.id || v.limited != (a.dk == c07Limited) || a.limited != (a.dk == c07Limited) {
+	if v.reg.node != a.target() || v.remote != in.node(a.opener()).id || a.remote != in.node(a.target()).id || v.limited != (a.dk == c07Limited) || a.limited != (a.dk == c07Limited) {
 		return seqmc.Violation("wrong-endpoints", "%s; %s; dialer's stream: remote=%s limited=%v; handler's stream: limited=%v", c07DescAttempt(a), c07DescInv(in, v), a.remote.ShortString(), a.limited, v.limited)
 	}
 	return nil
 }
 
+// wantCounts: per host and protocol of the universe, the inbound / outbound streams that must be charged to the
+// protocol's scope: one per open that succeeded and is still open (those of the group and those held in the background).
+func (in *c07Inst) wantCounts(atts []*c07Attempt) (wantIn, wantOut [3]map[protocol.ID]int) {
+	for n := range wantIn {
+		wantIn[n], wantOut[n] = map[protocol.ID]int{}, map[protocol.ID]int{}
+	}
+	for _, a := range append(append([]*c07Attempt(nil), in.held...), atts...) {
+		if a.ok() {
+			wantIn[a.target()][a.proto]++
+			wantOut[a.opener()][a.proto]++
+		}
+	}
+	return
+}
+
 // "the stream is charged to the negotiated protocol's resource scope on both sides": in the quiescent state
-// after the first use the only streams with a protocol of the universe are the successful opens of this group.
+// after the first use the only streams with a protocol of the universe are the successful opens of this group
+// (and the opens held open in the background).
 func (ck *c07Checker) scopesWhileOpen(in *c07Inst, atts []*c07Attempt) error {
-	for _, p := range c07U {
-		wantL := 0
-		var wantD [2]int
-		for _, a := range atts {
-			if a.closedAny {
-				// the script closed a direction: whether the stream still exists on an end once everything has settled
-				// depends on what the other end did meanwhile; the count "while open" is taken on the other opens
-				return nil
-			}
-			if a.ok() && a.proto == p {
-				wantL++
-				wantD[a.dk]++
-			}
+	for _, a := range atts {
+		if a.closedAny {
+			// the script closed a direction: whether the stream still exists on an end once everything has settled
+			// depends on what the other end did meanwhile; the count "while open" is taken on the other opens
+			return nil
 		}
-		if wantL == 0 {
-			continue
-		}
-		if got := c07ProtoStat(in.L.rm, p).NumStreamsInbound; got != wantL {
-			return seqmc.Violation("listener-scope-not-charged", "listener: ViewProtocol(%s).NumStreamsInbound=%d while %d stream(s) negotiated to it are open (%s)", p, got, wantL, c07DescAttempt(atts[0]))
-		}
-		for k := range in.D {
-			if wantD[k] == 0 {
-				continue
+	}
+	wantIn, wantOut := in.wantCounts(atts)
+	for n := 0; n < 3; n++ {
+		for _, p := range c07U {
+			st := c07ProtoStat(in.node(n).rm, p)
+			if want := wantIn[n][p]; want > 0 && st.NumStreamsInbound != want {
+				key := "listener-scope-not-charged"
+				if n != 0 {
+					key = "dialer-scope-not-charged"
+				}
+				return seqmc.Violation(key, "%s: ViewProtocol(%s).NumStreamsInbound=%d while %d inbound stream(s) negotiated to it are open (%s)", c07NodeName(n), p, st.NumStreamsInbound, want, c07DescAttempt(atts[0]))
 			}
-			if got := c07ProtoStat(in.D[k].rm, p).NumStreamsOutbound; got != wantD[k] {
-				return seqmc.Violation("dialer-scope-not-charged", "%s dialer: ViewProtocol(%s).NumStreamsOutbound=%d while %d stream(s) negotiated to it are open (%s)", c07ConnName[k], p, got, wantD[k], c07DescAttempt(atts[0]))
+			if want := wantOut[n][p]; want > 0 && st.NumStreamsOutbound != want {
+				key := "dialer-scope-not-charged"
+				if n == 0 {
+					key = "listener-scope-not-charged"
+				}
+				return seqmc.Violation(key, "%s: ViewProtocol(%s).NumStreamsOutbound=%d while %d outbound stream(s) negotiated to it are open (%s)", c07NodeName(n), p, st.NumStreamsOutbound, want, c07DescAttempt(atts[0]))
 			}
 		}
 	}
 	return nil
 }
 
+// after the opens of the group were closed or reset on both ends, only the opens held in the background are charged
 func (ck *c07Checker) scopesAfterClose(in *c07Inst, atts []*c07Attempt) error {
-	for _, p := range c07U {
-		if st := c07ProtoStat(in.L.rm, p); st.NumStreamsInbound != 0 || st.NumStreamsOutbound != 0 {
-			return seqmc.Violation("listener-scope-not-released", "listener: ViewProtocol(%s) = %+v after every stream was closed or reset on both ends", p, st)
-		}
-		for k := range in.D {
-			if st := c07ProtoStat(in.D[k].rm, p); st.NumStreamsInbound != 0 || st.NumStreamsOutbound != 0 {
-				return seqmc.Violation("dialer-scope-not-released", "%s dialer: ViewProtocol(%s) = %+v after every stream was closed or reset on both ends", c07ConnName[k], p, st)
+	wantIn, wantOut := in.wantCounts(nil)
+	for n := 0; n < 3; n++ {
+		for _, p := range c07U {
+			if st := c07ProtoStat(in.node(n).rm, p); st.NumStreamsInbound != wantIn[n][p] || st.NumStreamsOutbound != wantOut[n][p] {
+				key := "listener-scope-not-released"
+				if n != 0 {
+					key = "dialer-scope-not-released"
+				}
+				return seqmc.Violation(key, "%s: ViewProtocol(%s) = %+v after every stream of the group was closed or reset on both ends (streams still held open for it: %d inbound, %d outbound)", c07NodeName(n), p, st, wantIn[n][p], wantOut[n][p])
 			}
 		}
 	}
@@ -632,7 +800,20 @@ func (in *c07Inst) stale(k int) bool {
 // makes every open succeed (optimistic choice of a protocol that is handled, or full negotiation). The statement
 // does not promise that, so a failure there is not a violation; it is reported as a cap (the run then does not
 // claim to be exhaustive) so that a tree on which nothing can be opened any more does not pass silently.
-func (ck *c07Checker) classify(in *c07Inst, atts []*c07Attempt, window []*c07Inv) {
+// staleReq: does the opener of q believe in a protocol of the universe that no handler of the target accepts?
+func (in *c07Inst) staleReq(q c07Req) bool {
+	if !q.rev {
+		return in.stale(q.dk)
+	}
+	for _, u := range in.knowledge(q.opener(), q.target()) {
+		if len(in.acceptorsAt(q.target(), protocol.ID(u))) == 0 {
+			return true
+		}
+	}
+	return false
+}
+
+func (ck *c07Checker) classify(in *c07Inst, atts []*c07Attempt, window []*c07Inv, tag string) {
 	for _, a := range atts {
 		path := "-"
 		if a.s != nil {
@@ -664,8 +845,25 @@ func (ck *c07Checker) classify(in *c07Inst, atts []*c07Attempt, window []*c07Inv
 			}
 			res = fmt.Sprintf("ok req#%d %s", idx, kind)
 		}
-		cls := fmt.Sprintf("%s %s %s common=%v", c07ConnName[a.dk], path, res, in.common(a.list))
-		if a.script != "" {
+		common := in.commonAt(a.target(), a.list)
+		cls := fmt.Sprintf("%s %s %s common=%v", c07ConnName[a.dk], path, res, common)
+		if tag != "" {
+			// the dimensions beyond the plain state: resource limits on the listener (streams held open in the background),
+			// opens in both directions with handlers on the dialers
+			dir := "D->L"
+			if a.rev {
+				dir = "L->D"
+			}
+			sc := ""
+			if a.script != "" {
+				sc = " first:" + c07ShowScript(a.script)
+			}
+			res = "fail@" + a.stage
+			if a.ok() {
+				res = "ok"
+			}
+			cls = fmt.Sprintf("%s | %s %s%s %s %s common=%v refused=%v handler-ran=%v bound-protocol-handled=%v", tag, dir, c07ConnName[a.dk], sc, path, res, common, a.refusedBy != "", len(window) > 0, a.s != nil && len(in.acceptorsAt(a.target(), a.proto)) > 0)
+		} else if a.script != "" {
 			// the first-use dimension: path x script x (did it work, did a handler run); connection kind, list position
 			// and handler kind are in the classes of the plain opens
 			res = "fail@" + a.stage
@@ -676,33 +874,51 @@ func (ck *c07Checker) classify(in *c07Inst, atts []*c07Attempt, window []*c07Inv
 		} else if len(atts) > 1 {
 			// which of two concurrent opens finds the protocol already recorded by the other (and so takes the
 			// optimistic path) is up to the scheduler: not part of the class
-			cls = fmt.Sprintf("%s concurrent %s common=%v", c07ConnName[a.dk], res, in.common(a.list))
+			cls = fmt.Sprintf("%s concurrent %s common=%v", c07ConnName[a.dk], res, common)
 		}
 		ck.r.Outcome(cls)
 		ck.mu.Lock()
-		if !a.ok() && in.common(a.list) && !in.stale(a.dk) {
+		if !a.ok() && common && a.refusedBy == "" && !in.staleReq(a.c07Req) {
 			ck.unexpected++
 			if ck.unexpectedFirst == "" {
 				ck.unexpectedFirst = fmt.Sprintf("%s | state: %s", c07DescAttempt(a), in.pkey)
 			}
 		}
 		ck.classes[fmt.Sprintf("%s|%v|%s", in.pkey, a.list, cls)] = struct{}{}
+		if tag != "" {
+			ck.tagged[tag[:1]]++
+		}
 		_, seenCls := ck.sampled[cls]
 		ck.sampled[cls] = struct{}{}
 		ck.mu.Unlock()
 		// samples: the first case of an outcome class, the less common classes first
 		// at most 4 plain cases and 2 of the first-use dimension (an optimistic open whose first operation is not a
 		// Write), so that both kinds appear among the (at most 6) samples of the record
+		// at most 2 plain cases, 1 of the first-use dimension (an optimistic open whose first operation is not a Write),
+		// 1 refused by the listener's resource manager and 2 reverse opens made after an open in the other direction, so
+		// that every dimension appears among the (at most 6) samples of the record
 		want := false
 		if !seenCls && len(in.hist) >= 2 {
-			if a.script == "" {
-				want = (!a.ok() && a.s != nil || a.ok() && a.list[0] != a.proto || len(atts) > 1) && ck.plainSamples.Add(1) <= 4
-			} else {
-				want = a.optimistic && a.script[0] != c07SWrite && ck.scriptSamples.Add(1) <= 2
+			switch {
+			case tag != "" && tag[0] == 'l':
+				want = a.refusedBy != "" && len(in.held) > 0 && ck.limitSamples.Add(1) <= 1
+			case tag != "" && tag[0] == 'b':
+				want = a.rev && a.s != nil && !strings.Contains(tag, "after nothing") && ck.bidirSamples.Add(1) <= 2
+			case a.script == "":
+				want = (!a.ok() && a.s != nil || a.ok() && a.list[0] != a.proto || len(atts) > 1) && ck.plainSamples.Add(1) <= 2
+			default:
+				want = a.optimistic && a.script[0] != c07SWrite && ck.scriptSamples.Add(1) <= 1
 			}
 		}
 		if want {
-			ck.r.Sample(map[string]any{"state": in.pkey, "history": append([]string(nil), in.hist...), "opens": fmt.Sprint(atts2reqs(atts)), "open": a.c07Req.String(), "observed": c07DescAttempt(a), "outcome": cls})
+			sm := map[string]any{"state": in.pkey, "history": append([]string(nil), in.hist...), "opens": fmt.Sprint(atts2reqs(atts)), "open": a.c07Req.String(), "observed": c07DescAttempt(a), "outcome": cls}
+			if !in.cfg.zero() {
+				sm["fixture"] = in.cfg.String()
+			}
+			if len(in.held) > 0 {
+				sm["held_open_meanwhile"] = fmt.Sprint(atts2reqs(in.held))
+			}
+			ck.r.Sample(sm)
 		}
 	}
 }
@@ -787,9 +1003,257 @@ func (ck *c07Checker) visit(in *c07Inst) error {
 	}
 	if in.broken != "" {
 		ck.infra(in.broken)
+		return nil
+	}
+	// the same state on fixtures with another configuration: limits on the listener's resource manager, handlers on the
+	// dialers and opens in both directions
+	for _, cfg := range ck.variants {
+		if err := ck.variant(in, cfg); err != nil {
+			return err
+		}
 	}
 	return nil
 }
+
+// variant rebuilds the state of base (same history) on a fresh fixture with configuration cfg, inside the same bubble,
+// and makes the opens of that configuration's dimension there.
+func (ck *c07Checker) variant(base *c07Inst, cfg c07Cfg) error {
+	in := c07NewInst(ck, cfg)
+	defer in.close()
+	ck.nVariants.Add(1)
+	for _, o := range base.ops {
+		if in.broken != "" {
+			break
+		}
+		if err := in.apply(o); err != nil {
+			if v, ok := err.(*seqmc.Vio); ok {
+				v.Desc += " | while rebuilding the state on the fixture: " + cfg.String()
+			}
+			return err
+		}
+	}
+	if in.broken == "" {
+		// the dialers' knowledge is that of the probed state by construction (what a Learn operation of the history left
+		// behind may depend on whether the listener's limit let the stream live long enough)
+		for k := range in.D {
+			if err := in.D[k].h.Peerstore().SetProtocols(in.L.id, base.saved[k]...); err != nil {
+				in.fail("SetProtocols: %v", err)
+			}
+		}
+		in.snapshot()
+	}
+	if in.broken != "" {
+		ck.infra(in.broken)
+		return nil
+	}
+	if in.pkey != base.pkey {
+		ck.infra(fmt.Sprintf("a fixture with another configuration did not reach the state of the plain one (%s): %s instead of %s", cfg, in.pkey, base.pkey))
+		return nil
+	}
+	var err error
+	if cfg.Lim.Kind != 0 {
+		err = ck.holdProbes(in)
+	}
+	if err == nil && len(cfg.DH) > 0 {
+		err = ck.bidirProbes(in)
+	}
+	if err == nil && in.broken != "" {
+		ck.infra(in.broken)
+	}
+	return err
+}
+
+// holdProbes: the listener's resource manager admits N concurrent inbound streams per protocol (in the protocol scope or
+// in the protocol-peer scope). For every protocol P the listener handles and every way of spreading them over the two
+// dialers, N streams for P are opened and HELD open; in that situation every request list is opened on both
+// connections (the opens that negotiate P are the (N+1)-th and are refused at SetProtocol, the others are not), each
+// checked like any other open: the handler that runs, runs on a stream that reports the negotiated protocol and is
+// attached to its scope; a refused stream runs no handler; the scopes count exactly the streams that are open.
+func (ck *c07Checker) holdProbes(in *c07Inst) error {
+	n := in.cfg.Lim.N
+	lists := c07Lists(ck.maxLen)
+	short := c07Lists(2)
+	// finals: the opens made in one situation. quick tier, with streams held open for protocol `held`: only the request
+	// lists that contain it (the others cannot negotiate the protocol whose scope is full; thorough makes them too).
+	finals := func(tag string, held protocol.ID) error {
+		for _, sc := range ck.limScripts {
+			ls := lists
+			if sc != "" {
+				ls = short
+			}
+			for dk := range in.D {
+				for _, l := range ls {
+					if held != "" && !ck.thorough && !c07Has(l, held) {
+						continue
+					}
+					if _, err := ck.probeOpt(in, []c07Req{{dk: dk, list: l, script: sc}}, c07ProbeOpt{restore: true, why: "sequential, against a limited listener", tag: tag}); err != nil {
+						return err
+					}
+				}
+			}
+		}
+		return nil
+	}
+	if n == 0 {
+		return finals(fmt.Sprintf("limit %c/0", in.cfg.Lim.Kind), "")
+	}
+	for _, p := range c07U {
+		if len(in.acceptors(p)) == 0 {
+			continue // no stream can be held open for a protocol the listener does not handle
+		}
+		// every assignment of the n held streams to the two dialers (as a multiset: c of them on the limited connection)
+		for c := 0; c <= n; c++ {
+			heldBy := ""
+			complete := true
+			for i := 0; i < n && complete; i++ {
+				dk := c07Direct
+				if i >= n-c {
+					dk = c07Limited
+				}
+				heldBy += c07ConnName[dk][:1]
+				atts, err := ck.probeOpt(in, []c07Req{{dk: dk, list: []protocol.ID{p}}}, c07ProbeOpt{restore: true, hold: true, why: "opened to be held open", tag: fmt.Sprintf("limit %c/%d filling", in.cfg.Lim.Kind, n)})
+				if err != nil {
+					ck.release(in)
+					return err
+				}
+				complete = len(atts) == 1 && atts[0].ok()
+			}
+			var err error
+			if complete {
+				err = finals(fmt.Sprintf("limit %c/%d held=%s by %s", in.cfg.Lim.Kind, n, p, heldBy), p)
+			} else {
+				ck.mu.Lock()
+				ck.holdIncomplete++
+				ck.mu.Unlock()
+			}
+			if rerr := ck.release(in); err == nil {
+				err = rerr
+			}
+			if err != nil {
+				return err
+			}
+		}
+	}
+	return nil
+}
+
+// bidirProbes: the dialers have handlers of their own (in.cfg.DH, asymmetric to the listener's) and BOTH sides open
+// streams to each other over the same connection: for each connection and each direction a first open for a single
+// protocol (or none), then - from the knowledge BOTH hosts have after it - every request list opened the other way
+// (after no first open: either way). What a host learns from the other side's inbound stream must not lead its own
+// later opens astray. L's knowledge about the dialers' protocols is what identify reported (accurate: their handlers
+// never change) or forgotten; the dialers' knowledge about L is the probed state's.
+func (ck *c07Checker) bidirProbes(in *c07Inst) error {
+	lists := c07Lists(ck.maxLen)
+	for _, lk := range []byte{c07LKnowAccurate, c07LKnowUnknown} {
+		for dk := range in.D {
+			for _, firstRev := range []bool{false, true} {
+				for fi := -1; fi < len(c07U); fi++ {
+					if fi < 0 && firstRev {
+						continue // "no first open" once
+					}
+					if fi >= 0 && firstRev && lk == c07LKnowUnknown && !ck.thorough {
+						continue // (quick: L's first open is made from accurate knowledge only; what the DIALER learns from it is the point)
+					}
+					in.restore(dk)
+					in.restoreL(dk, lk)
+					after := "after nothing"
+					if fi >= 0 {
+						q := c07Req{dk: dk, list: []protocol.ID{c07U[fi]}, rev: firstRev}
+						atts, err := ck.probeOpt(in, []c07Req{q}, c07ProbeOpt{why: "first of two opens in opposite directions", tag: fmt.Sprintf("bidir Lknows=%c first", lk)})
+						if err != nil {
+							return err
+						}
+						if in.broken != "" {
+							return nil
+						}
+						res := "failed"
+						if atts[0].ok() {
+							res = "ok"
+						}
+						dir := "D->L"
+						if firstRev {
+							dir = "L->D"
+						}
+						after = fmt.Sprintf("after %s %s", dir, res)
+					}
+					// what both hosts know now
+					kD, _ := in.D[dk].h.Peerstore().GetProtocols(in.L.id)
+					kL, _ := in.L.h.Peerstore().GetProtocols(in.D[dk].id)
+					for _, secondRev := range []bool{false, true} {
+						if fi >= 0 && secondRev == firstRev {
+							continue
+						}
+						if fi < 0 && !secondRev && !ck.thorough {
+							continue // (quick: a dialer's open alone is what the plain fixture enumerates)
+						}
+						for _, l := range lists {
+							if err := in.D[dk].h.Peerstore().SetProtocols(in.L.id, kD...); err != nil {
+								in.fail("SetProtocols: %v", err)
+							}
+							if err := in.L.h.Peerstore().SetProtocols(in.D[dk].id, kL...); err != nil {
+								in.fail("SetProtocols: %v", err)
+							}
+							why := "the other way, " + after
+							if fi >= 0 {
+								why = fmt.Sprintf("the other way, after %v", c07Req{dk: dk, list: []protocol.ID{c07U[fi]}, rev: firstRev})
+							}
+							if _, err := ck.probeOpt(in, []c07Req{{dk: dk, list: l, rev: secondRev}}, c07ProbeOpt{why: why, tag: fmt.Sprintf("bidir Lknows=%c %s", lk, after)}); err != nil {
+								return err
+							}
+						}
+					}
+				}
+			}
+		}
+	}
+	return nil
+}
+
+// c07Variants: the fixture configurations every (mux, knowledge) class is probed on besides the plain one.
+func c07Variants(thorough, blank bool) []c07Cfg {
+	var out []c07Cfg
+	if blank {
+		if c07BlankLimits() {
+			for _, k := range []byte{c07LimProto, c07LimProtoPeer} {
+				out = append(out, c07Cfg{Lim: c07Lim{Kind: k, N: 1}})
+			}
+		}
+		return out
+	}
+	// the listener's resource manager refuses the (N+1)-th concurrent inbound stream of a protocol, N = 0, 1, 2
+	for _, k := range []byte{c07LimProto, c07LimProtoPeer} {
+		for n := 0; n <= 2; n++ {
+			out = append(out, c07Cfg{Lim: c07Lim{Kind: k, N: n}})
+		}
+	}
+	// the dialers handle protocols themselves: every single protocol (exact handler); thorough: every non-empty set of
+	// exact handlers and the two single match handlers
+	for mask := 1; mask < 1<<len(c07U); mask++ {
+		var dh []c07DH
+		for p := range c07U {
+			if mask&(1<<p) != 0 {
+				dh = append(dh, c07DH{P: p, Kind: c07Exact})
+			}
+		}
+		if len(dh) == 1 || thorough {
+			out = append(out, c07Cfg{DH: dh})
+		}
+	}
+	if thorough {
+		for p := range c07U {
+			if c07MatchA(c07U[p]) {
+				out = append(out, c07Cfg{DH: []c07DH{{P: p, Kind: c07Match}}})
+			}
+		}
+	}
+	return out
+}
+
+// c07BlankLimits: also put limits on the BlankHost listener's resource manager. OFF by default because the UNCHANGED tree
+// fails there: BlankHost.newStreamHandler ignores the error of Stream.SetProtocol and dispatches the handler on a
+// stream that reports no protocol and is charged to no protocol scope (see the report). VERIF_C07_BLANK_LIMITS=1.
+func c07BlankLimits() bool { return os.Getenv("VERIF_C07_BLANK_LIMITS") != "0" } // on by default since the defect was repaired in /repo
 
 // c07Crafted: also enumerate opens whose first user bytes look like a multistream-select frame. OFF by default:
 // the property quantifies over handler sets, request lists, knowledge, connection kinds and concurrency, not over
@@ -812,10 +1276,16 @@ func c07RealNow() int64 {
 // ---------- the check ----------
 
 func c07NewChecker(part string, blank bool) *c07Checker {
-	ck := &c07Checker{r: vrep.New("C07", part), maxLen: 2, scriptLen: 2, thorough: vrep.Thorough(), blank: blank, classes: map[string]struct{}{}, sampled: map[string]struct{}{}, caps: map[string]int{}}
+	ck := &c07Checker{r: vrep.New("C07", part), maxLen: 2, scriptLen: 2, thorough: vrep.Thorough(), blank: blank, classes: map[string]struct{}{}, sampled: map[string]struct{}{}, caps: map[string]int{}, tagged: map[string]int64{}}
+	ck.limScripts = []string{""}
 	if ck.thorough {
 		ck.maxLen = 3
 		ck.scriptLen = 3
+		ck.limScripts = c07Scripts(1)
+	}
+	ck.variants = c07Variants(ck.thorough, blank)
+	if os.Getenv("VERIF_C07_NOVARIANTS") != "" {
+		ck.variants = nil // experiments only; the evidence reports what was run
 	}
 	if v, err := strconv.Atoi(os.Getenv("VERIF_C07_SCRIPTLEN")); err == nil && v >= 0 {
 		ck.scriptLen = v // experiments only; the evidence reports the bound actually used
@@ -845,6 +1315,15 @@ func c07Search(t *testing.T, part string, blank bool, depth int, deadline time.T
 	r.Bounds["first_stream_operations"] = fmt.Sprintf("every sequence of 0..%d distinct operations of {Write(nonce), Write(zero bytes), Read, CloseWrite, CloseRead, Close} that is possible on one stream (%d scripts), then what is left of write nonce + read answer; on every single open (not on the concurrent pairs)", ck.scriptLen, len(ck.scripts))
 	r.Bounds["connections"] = "direct and limited (Stat().Limited, opened with WithAllowLimitedConn)"
 	r.Bounds["concurrent_opens"] = 2
+	if len(ck.variants) > 0 {
+		var vs []string
+		for _, c := range ck.variants {
+			vs = append(vs, c.String())
+		}
+		r.Bounds["fixture_configurations"] = append([]string{"plain (nothing limited, dialers without handlers)"}, vs...)
+		r.Bounds["limited_listener"] = fmt.Sprintf("per protocol P the listener handles and per assignment of the N admitted streams to the two dialers: N streams for P held open, then every request list of length 1..%d (quick: that contains P) on both connections (first-use scripts: %d, lists of length 1..2 for the non-empty ones)", ck.maxLen, len(ck.limScripts))
+		r.Bounds["both_directions"] = fmt.Sprintf("per connection, per knowledge of L about the dialer (as identify reported / forgotten): no first open or a first open for one protocol in either direction, then every request list of length 1..%d the other way (after no first open: L's opens; thorough: both ways; quick: a first open by L only from accurate knowledge), plain write+read", ck.maxLen)
+	}
 
 	alphabet := c07Alphabet(blank)
 	sp := &seqmc.Spec[*c07Inst]{
@@ -852,7 +1331,7 @@ func c07Search(t *testing.T, part string, blank bool, depth int, deadline time.T
 		New: func() *c07Inst {
 			t0 := c07RealNow()
 			defer func() { ck.tNew.Add(c07RealNow() - t0); ck.nNew.Add(1) }()
-			return c07NewInst(ck)
+			return c07NewInst(ck, c07Cfg{})
 		},
 		Close:   func(in *c07Inst) { in.close() },
 		NOps:    len(alphabet),
@@ -891,6 +1370,15 @@ func c07Search(t *testing.T, part string, blank bool, depth int, deadline time.T
 		ck.nNew.Load(), float64(ck.tNew.Load())/1e9, float64(ck.tApply.Load())/1e9, float64(ck.tVisit.Load())/1e9)
 	if st.Probed > 0 && ck.opens.Load() == 0 {
 		r.Cap("no open was executed")
+	}
+	if len(ck.variants) > 0 && st.Probed > 0 {
+		r.Note("fixtures with another configuration built: %d; opens against a limited listener: %d (refused by its resource manager: %d), opens with handlers on both sides: %d", ck.nVariants.Load(), ck.tagged["l"], ck.nRefused.Load(), ck.tagged["b"])
+		if !blank && (ck.nRefused.Load() == 0 || ck.tagged["b"] == 0) {
+			r.Cap("the limited-listener / both-directions dimensions were configured but produced no case (refusals: %d, opens with handlers on both sides: %d)", ck.nRefused.Load(), ck.tagged["b"])
+		}
+	}
+	if ck.holdIncomplete > 0 {
+		r.Cap("baseline: %d times the streams to be held open against a limited listener could not all be opened (no verdict for those situations)", ck.holdIncomplete)
 	}
 	if ck.unexpected > 0 {
 		r.Cap("baseline: %d opens failed although the listener handles a requested protocol and the dialer's knowledge contains nothing stale (not a violation of the statement, which promises no success); first: %s", ck.unexpected, ck.unexpectedFirst)
@@ -952,7 +1440,7 @@ func c07Replay(t *testing.T, path string) {
 	ck := c07NewChecker(part, blank)
 	r := ck.r
 	synctest.Test(t, func(*testing.T) {
-		in := c07NewInst(ck)
+		in := c07NewInst(ck, c07Cfg{})
 		defer in.close()
 		var verr error
 		for i, h := range rec.Replay.History {
